@@ -566,6 +566,9 @@ class Executor:
     def named_const(self, agg, ty):
         """a named constant (`const tcp::PROTOCOL_VERSION`) whose value the dump does not show: an uninterpreted symbol
         (same name -> same symbol): over-approximation"""
+        for suffix, val in getattr(self, "const_values", {}).items():
+            if agg.const_text.endswith(suffix) and norm_ty(ty) in INT_W:
+                return Leaf(bvconst(val, INT_W[norm_ty(ty)]), norm_ty(ty))
         return self.ctx.declare("const:" + agg.const_text + ":" + ty.replace("usize", "u64"), ty)
 
     def binop(self, path, op, a, b):
@@ -611,7 +614,7 @@ class Executor:
         # counters and loop indices concrete along a path instead of growing (bvadd (bvadd 0 1) 1) terms)
         cx, cy = const_of(x), const_of(y)
         if (isinstance(cx, int) and isinstance(cy, int) and not isinstance(cx, bool) and not isinstance(cy, bool)
-                and op not in ("Shl", "Shr", "Div", "Rem", "Offset", "Cmp")):
+                and op not in ("Shl", "Shr", "Offset", "Cmp") and not (op in ("Div", "Rem") and (cy == 0 or sg))):
             M = 1 << w
 
             def sv(v):
@@ -621,6 +624,8 @@ class Executor:
                 r = {"Eq": ax == ay, "Ne": ax != ay, "Lt": ax < ay, "Le": ax <= ay, "Gt": ax > ay, "Ge": ax >= ay}[op]
                 return Leaf("true" if r else "false", "bool")
             base = op.replace("WithOverflow", "").replace("Unchecked", "")
+            if base in ("Div", "Rem"):
+                return Leaf(bvconst(cx // cy if base == "Div" else cx % cy, w), ta)
             if base in ("Add", "Sub", "Mul", "BitAnd", "BitOr", "BitXor"):
                 exact = {"Add": ax + ay, "Sub": ax - ay, "Mul": ax * ay, "BitAnd": cx & cy, "BitOr": cx | cy,
                          "BitXor": cx ^ cy}[base]
@@ -736,6 +741,9 @@ class Executor:
             if m.group(1) == "Not":
                 if v.ty == "bool":
                     return Leaf(fold(f"(not {v.term})"), "bool")
+                cv = const_of(v.term)
+                if isinstance(cv, int) and not isinstance(cv, bool) and v.ty in INT_W:
+                    return Leaf(bvconst(~cv, INT_W[v.ty]), v.ty)
                 return Leaf(fold(f"(bvnot {v.term})"), v.ty)
             return Leaf(fold(f"(bvneg {v.term})"), v.ty)
         # closure / coroutine aggregate:  {closure@file:l:c: l:c} { cap: op, ... }   (or without captures)
